@@ -2,70 +2,59 @@
   C17 - OTLP metrics survive conversion to STEF and back.
   Property theorems only (helper lemmas: Stef/Proofs/Otlp*.lean). The model is Stef/Otlp/{Value,Metrics}.lean.
 -/
-import Stef.Proofs.OtlpMetricsWrite
+import Stef.Proofs.OtlpSorted
 
 namespace Stef.Props.C17
 open Stef.Otlp
 
 /-! ### attribute values -/
 
-/-- Value conversion there and back, full statement: FALSE as the code is written. The map case of
-    otlptools.otlpValueToTefAnyValue never increments its index: `{"a":1,"b":2}` written into a new
-    otelstef.AnyValue is read back as `{"b":2,"":<empty>}`. -/
-def nestedMapWitness : AnyValue := .map (.cons [97] (.int 1) (.cons [98] (.int 2) .nil))
+/-- What the STEF value holds after the conversion is exactly the OTLP value - for EVERY value
+    (nested arrays and maps of any size, every double bit pattern) and whatever the re-used
+    destination object held before (any `into`, hidden storage included). Full strength since repo
+    commits 571960a (the map case increments its index; before it `{"a":1,"b":2}` was stored as
+    `{"b":2,"":<empty>}`) and 59db810 (float setters compare bit patterns). -/
+theorem anyvalue_stored (v : AnyValue) (into : SVal) : tefToOtlpRaw (otlpToTef v into) = v :=
+  otlpToTef_spec v into
 
-theorem anyvalue_roundtrip_false : ¬ ∀ (v : AnyValue) (into : SVal), tefToOtlp (otlpToTef v into) = v := by
-  intro h
-  have := h nestedMapWitness SVal.fresh
-  revert this
-  decide
-
-theorem nested_map_comes_back_as :
-    tefToOtlp (otlpToTef nestedMapWitness SVal.fresh) = .map (.cons [98] (.int 2) (.cons [] .empty .nil)) := by
-  decide
-
-/-- Value conversion there and back for every value whose nested maps have at most one entry
-    (`small`) and whose map keys are distinct (`nodup`, a pdata invariant), whatever the re-used
-    destination object held before (any `into`, hidden storage included). -/
-theorem anyvalue_roundtrip_partial (v : AnyValue) (into : SVal) (hs : v.small = true) (hd : v.nodup = true) :
+/-- Value conversion there and back (otlpValueToTefAnyValue then tefAnyValueToOtlp) is the identity
+    on every value whose maps have distinct keys - which pcommon.Map guarantees (`Map.PutEmpty`, used
+    on the way back, replaces an existing key). -/
+theorem anyvalue_roundtrip (v : AnyValue) (into : SVal) (hd : v.nodup = true) :
     tefToOtlp (otlpToTef v into) = v := by
   unfold tefToOtlp
-  rw [(otlpToTef_spec v into hs (AnyValue.nnz_true v) (SVal.nnz_true into)).1, dedupValue_nodup v hd]
+  rw [otlpToTef_spec v into, dedupValue_nodup v hd]
 
-/-- The `fixed` conversion (index incremented in the map case; this is also what the generated
-    `CopyFrom` does) round-trips every value with distinct keys. -/
-theorem anyvalue_roundtrip_fixed (v : AnyValue) (into : SVal) (hd : v.nodup = true) :
-    tefToOtlp (otlpToTefFixed v into) = v := by
-  unfold tefToOtlp
-  rw [(otlpToTefFixed_spec v into (AnyValue.nnz_true v) (SVal.nnz_true into)).1, dedupValue_nodup v hd]
+/-- the distinct-keys hypothesis is needed: a (non-pdata) value with a repeated key is merged -/
+example : tefToOtlp (otlpToTef (.map (.cons [97] (.int 1) (.cons [97] (.int 2) .nil))) SVal.fresh)
+    = .map (.cons [97] (.int 2) .nil) := by decide
 
-/-- Floats: since repo commit 59db810 the generated setters compare with pkg.Float64Equal (bit
-    patterns), so -0.0 written over +0.0 is stored (before that commit it was lost) ... -/
-theorem negzero_value_kept :
-    tefToOtlp (otlpToTef (.dbl negZero) (otlpToTef (.dbl 0) SVal.fresh)) = .dbl negZero := by decide
-
-/-- ... except through Float64Array.CopyFromSlice, which still uses `slices.Equal` (Go `==`):
-    histogram bounds that differ from the previous point's only in the sign of a zero are not stored. -/
-theorem negzero_bounds_lost : setFSlice [0] [negZero] = [0] := by decide
+/-- -0.0 written over +0.0 is stored, in values and in histogram bounds (repo commits 59db810, 7828c58) -/
+theorem negzero_kept :
+    tefToOtlp (otlpToTef (.dbl negZero) (otlpToTef (.dbl 0) SVal.fresh)) = .dbl negZero ∧
+    setFSlice [0] [negZero] = [negZero] := by decide
 
 /-- A top-level attribute map (any number of entries) written by `MapUnsorted` into a re-used
     otelstef.Attributes and read back by `TefToOtlpMap` is unchanged. -/
 theorem attributes_roundtrip (m : KVs) (out : SAttrs) (hc : m.clean = true) :
     (SAttrs.mapUnsorted m out).toOtlp = m :=
-  (attrs_roundtrip m out hc (SAttrs.nnz_true out)).1
+  attrs_roundtrip m out hc
 
-/-- non-vacuity: a value with a nested array, a nested one-entry map and several kinds, written over
-    a destination that previously held a larger map (stale keys in the hidden storage). -/
+/-- non-vacuity: a value with a nested array, nested maps of one and three entries and several
+    kinds, written over a destination that previously held other content (stale hidden storage). -/
 def sampleValue : AnyValue :=
   .slice (.cons (.map (.cons [107] (.dbl 0x7ff8000000000001) .nil))
-    (.cons (.slice (.cons (.str [120]) (.cons .empty .nil))) (.cons (.bytes [0, 255]) (.cons (.bool true) .nil))))
+    (.cons (.slice (.cons (.str [120]) (.cons .empty .nil)))
+      (.cons (.map (.cons [97] (.int 1) (.cons [98] (.dbl negZero) (.cons [] (.bytes [0, 255]) .nil))))
+        (.cons (.bool true) .nil))))
 
-def staleInto : SVal := otlpToTef (.slice (.cons nestedMapWitness (.cons (.int 5) .nil))) SVal.fresh
+def staleInto : SVal :=
+  otlpToTef (.slice (.cons (.map (.cons [122] (.int 9) (.cons [121] (.int 8) .nil))) (.cons (.int 5) .nil))) SVal.fresh
 
-example : sampleValue.small = true ∧ sampleValue.nodup = true ∧ staleInto ≠ SVal.fresh := by decide
+example : sampleValue.nodup = true ∧ staleInto ≠ SVal.fresh := by decide
 
 example : tefToOtlp (otlpToTef sampleValue staleInto) = sampleValue :=
-  anyvalue_roundtrip_partial sampleValue staleInto (by decide) (by decide)
+  anyvalue_roundtrip sampleValue staleInto (by decide)
 
 /-! ### number of records -/
 
@@ -94,18 +83,26 @@ theorem record_count_sorted_false :
   revert this
   decide
 
+/-- What the sorting converter does write, for every batch (no side condition): one record per data
+    point except number points without a value (`keptCount`). -/
+theorem record_count_sorted (m : Metrics) (recs : List SRecord) (h : otlpToStefSorted m = .ok recs) :
+    recs.length = keptCount m :=
+  otlpToStefSorted_count m recs h
+
+/-- Sorting converter, for every batch whose number points all have a value (flagged or not):
+    one record per data point. -/
+theorem record_count_sorted_partial (m : Metrics) (recs : List SRecord) (h : otlpToStefSorted m = .ok recs)
+    (hv : ∀ r ∈ m.rms, ∀ s ∈ r.scopes, ∀ mt ∈ s.metrics, ∀ p ∈ mt.points, keptPoint mt.type p = true) :
+    recs.length = (flatten m).length := by
+  rw [otlpToStefSorted_count m recs h, keptCount_all m hv]
+
 /-! ### round trip, unsorted converters -/
 
-/-- Round trip, full statement: converting to STEF and back yields the same data points. FALSE as
-    written; two of the recorded witnesses (the others are in known_findings.txt):
-    a summary point flagged NoRecordedValue comes back unflagged, and a nested attribute map with
-    two entries comes back corrupted. -/
+/-- Round trip, full statement: converting to STEF and back yields the same data points. Still FALSE
+    on HEAD; one of the recorded witnesses (the others are in known_findings.txt): a summary point
+    flagged NoRecordedValue comes back unflagged. -/
 def summaryNrvWitness : Metrics :=
   { rms := [{ scopes := [{ metrics := [{ name := [115], type := .summary, points := [{ ts := 1, flags := 1 }] }] }] }] }
-
-def nestedMapMetricsWitness : Metrics :=
-  let p : Point := { ts := 1, vt := 1, v := 7, attrs := .cons [109] nestedMapWitness .nil }
-  { rms := [{ scopes := [{ metrics := [{ name := [103], type := .gauge, points := [p] }] }] }] }
 
 /-- what both directions give for a batch, as data points (`none` when a conversion fails) -/
 def roundTripUnsorted (m : Metrics) : Option (List DataPoint) :=
@@ -122,11 +119,12 @@ theorem roundtrip_unsorted_false : ¬ ∀ m : Metrics, roundTripUnsorted m = som
   revert this
   decide
 
-theorem roundtrip_unsorted_false_nested_map : roundTripUnsorted nestedMapMetricsWitness ≠ some (flatten nestedMapMetricsWitness) := by
+/-- a second witness: a number point without a value and without flag comes back flagged -/
+theorem roundtrip_unsorted_false_valueless : roundTripUnsorted valuelessWitness ≠ some (flatten valuelessWitness) := by
   decide
 
 /-- Round trip through the unsorted converters for every clean batch (`Metrics.clean`: distinct
-    attribute keys, nested maps of at most one entry, no -0.0, number points with a value, no
+    attribute keys, number points with a value, no
     exemplars on flagged points, unflagged summaries, histogram buckets = bounds + 1, valid
     temporality, 32-bit scale/offsets): both conversions succeed and the data points come back in
     the same order with the same resource, scope, metric identity and metadata, attributes,
@@ -150,12 +148,13 @@ theorem reader_returns_record_points (recs : List SRecord) (ds : List DataPoint)
 /-! ### non-vacuity of the round trip -/
 
 /-- two resources (the first repeated), two scopes, all five metric types, an interleaved metric
-    identity, a flagged point, per-point bounds, exemplars with unsorted filtered attributes, nested
-    array and one-entry map, NaN, infinity and -0.0 values (the latter written over +0.0). -/
+    identity, a flagged point, per-point bounds (one differing from the previous point's only in the
+    sign of a zero), exemplars with unsorted filtered attributes, nested array and a nested map of three
+    entries, NaN, infinity and -0.0 values (the latter written over +0.0). -/
 def sample : Metrics :=
   let id16 := List.replicate 16 3
   let id8 := List.replicate 8 4
-  let a1 : KVs := .cons [98] (.slice (.cons (.int 1) (.cons (.map (.cons [120] (.dbl 0x7ff8000000000000) .nil)) .nil)))
+  let a1 : KVs := .cons [98] (.slice (.cons (.int 1) (.cons (.map (.cons [120] (.dbl 0x7ff8000000000000) (.cons [121] (.int 2) (.cons [119] .empty .nil)))) .nil)))
                     (.cons [97] (.str [118]) .nil)
   let ex1 : Exemplar := { ts := 5, vt := 2, v := 0x7ff0000000000000, traceID := id16, spanID := id8,
                           attrs := .cons [122] (.int 1) (.cons [97] (.bool true) .nil) }
@@ -166,7 +165,9 @@ def sample : Metrics :=
   let su : Metric := { name := [115], type := .sum, temp := 2, mono := true, points := [{ ts := 4, vt := 2, v := 0 }, { ts := 5, vt := 2, v := negZero }] }
   let h : Metric := { name := [104], type := .hist, temp := 1, points := [
       { ts := 5, count := 3, hasSum := true, sum := 0x3ff0000000000000, buckets := [1, 2], bounds := [0x4000000000000000] },
-      { ts := 6, count := 1, buckets := [1], bounds := [], exemplars := [ex1] }] }
+      { ts := 6, count := 1, buckets := [1], bounds := [], exemplars := [ex1] },
+      { ts := 7, count := 1, buckets := [1, 0], bounds := [0] },
+      { ts := 8, count := 1, buckets := [1, 0], bounds := [negZero] }] }
   let e : Metric := { name := [101], type := .exp, temp := 2, points := [
       { ts := 7, count := 2, scale := 0xffffffff, posOff := 1, pos := [1, 1], negOff := 0xfffffffe, neg := [2],
         hasMin := true, min := 0xfff0000000000000 }] }
@@ -177,14 +178,20 @@ def sample : Metrics :=
             { url := [119], scopes := [{ metrics := [e] }] },
             { res with scopes := [{ name := [115], metrics := [su] }] }] }
 
-example : sample.clean = true ∧ (flatten sample).length = 14 := by decide
+example : sample.clean = true ∧ (flatten sample).length = 16 := by decide
 
 example : ∃ recs m', otlpToStefUnsorted sample = .ok recs ∧ stefToOtlpUnsorted recs = .ok m' ∧
-    flatten m' = (flatten sample).map DataPoint.sortExAttrs ∧ recs.length = 14 := by
+    flatten m' = (flatten sample).map DataPoint.sortExAttrs ∧ recs.length = 16 := by
   obtain ⟨recs, m', h1, h2, h3⟩ := roundtrip_unsorted_partial sample (by decide)
   exact ⟨recs, m', h1, h2, h3, by rw [record_count sample recs h1]; decide⟩
 
 /-- the exemplar attribute order really changes on `sample` (the partial theorem is not an identity) -/
 example : (flatten sample).map DataPoint.sortExAttrs ≠ flatten sample := by decide
+
+/-- the sorting converter on `sample`: it returns, reorders, and writes one record per point; the
+    hypothesis of `record_count_sorted_partial` holds for it -/
+example : (otlpToStefSorted sample).toOption.map List.length = some (flatten sample).length ∧
+    (otlpToStefSorted sample).toOption ≠ (otlpToStefUnsorted sample).toOption ∧
+    keptCount sample = (flatten sample).length := by decide
 
 end Stef.Props.C17
